@@ -1773,6 +1773,14 @@ pub fn skeleton_fn(ctx: &mut Ctx, blk: &Block) -> Result<(String, Value), String
                     rest = &tail[end..];
                     continue;
                 }
+                // `callee.k` is a prefix of the token: `@callee.0.field` / `@callee.0.method(..)` keep what follows
+                let (tok, end) = match tok.split_once('.') {
+                    Some((callee, rest_)) => {
+                        let nd = rest_.chars().take_while(|c| c.is_ascii_digit()).count();
+                        if nd > 0 && (nd == rest_.len() || rest_[nd..].starts_with('.')) { (&tok[..callee.len() + 1 + nd], callee.len() + 1 + nd) } else { (tok, end) }
+                    }
+                    None => (tok, end),
+                };
                 match tok.split_once('.') {
                     Some((callee, k)) if !callee.is_empty() && k.chars().all(|c| c.is_ascii_digit()) && !k.is_empty() => {
                         let k: usize = k.parse().unwrap();
